@@ -30,11 +30,16 @@ def parsePoly (n : Nat) (s : String) : Option (Array Nat) :=
 
 def showArr (a : Array Nat) : String := showList a.toList
 
-def showSel (a : Array Nat) : List String → Option String
+def showSel (n : Nat) (a : Array Nat) : List String → Option String
   | [] => some (showArr a)
   | [idx] => do
     let ix ← parseNatList idx
     some (showList (ix.map fun i => coef a i))
+  | [idx, x] => do
+    -- checksum over every entry: Σ a[i]·x^i mod n
+    let ix ← parseNatList idx
+    let x ← parseNat x
+    some (showList (ix.map fun i => coef a i) ++ s!" chk={eval n a x}")
   | _ => none
 
 def showOptList : Option (List Nat) → String
@@ -124,12 +129,12 @@ def handlePolyFft : Handler
     let n ← parseNat n; let size ← parseNat size; let offset ← parseNat offset
     let reslen ← parseNat reslen
     let p ← parsePoly n p; let q ← parsePoly n q
-    showSel (convolve n size offset reslen p q) rest
+    showSel n (convolve n size offset reslen p q) rest
   | "pf_convolve_ntt" :: n :: _logk :: size :: offset :: reslen :: p :: q :: rest => do
     let n ← parseNat n; let size ← parseNat size; let offset ← parseNat offset
     let reslen ← parseNat reslen
     let p ← parsePoly n p; let q ← parsePoly n q
-    showSel (convolve n size offset reslen p q) rest
+    showSel n (convolve n size offset reslen p q) rest
   | ["pf_kron", n, size, offset, reslen, p, q] => do
     let n ← parseNat n; let size ← parseNat size; let offset ← parseNat offset
     let reslen ← parseNat reslen
@@ -162,6 +167,12 @@ def handlePolyFft : Handler
     -- mechanism model (Ymq/Model/PolyMul.lean); its equality with the schoolbook product is a theorem
     let n ← parseNat n; let p ← parsePoly n p; let q ← parsePoly n q
     some (showOptList (Ymq.PolyMul.mulKaratsuba (Ymq.PolyMul.natOps n) p.toList q.toList))
+  | ["pf_karatsuba_raw", n, zlen, tmplen, p, q] => do
+    -- Poly::karatsuba on zero-filled buffers of the given lengths (hook)
+    let n ← parseNat n; let zlen ← parseNat zlen; let tmplen ← parseNat tmplen
+    let p ← parsePoly n p; let q ← parsePoly n q
+    some (showOptList ((Ymq.PolyMul.karatsuba (Ymq.PolyMul.natOps n) Ymq.PolyMul.FUEL (List.replicate zlen 0)
+      p.toList q.toList (List.replicate tmplen 0)).map (·.1)))
   | ["pf_mul_basic", n, p, q] => do
     let n ← parseNat n; let p ← parsePoly n p; let q ← parsePoly n q
     some (showOptList (Ymq.PolyMul.basicMul (Ymq.PolyMul.natOps n) (List.replicate (2 * p.size) 0) p.toList q.toList))
